@@ -207,11 +207,12 @@ def freshNames (rows : List CRow) (out : List RefFlow.OutEdge) : Bool :=
       namesOk (kindOf c.row.type) (timeoutOf c.row) [] (testsOf (kindOf c.row.type) (out.filter (·.src = j)))
     | none => true
 
-/-- fragment F2: action rows and deciding rows (`wait_for_response` with or without timeout,
-`split_by_value`, `split_by_group`), any number of edges per row with explicit `from` row ids, blank
-`from` or `start` — chains, trees, joins, last-edge-wins defaults, tests appended in row order,
-"No Response" branches — under the single-meaning conditions `edgeOk` and `distinctTests`, which
-are read off the edges the reference interpretation resolves -/
+/-- the fragment of the universal theorem `Props.C02.C02_fragment`: all row types of a core sheet
+except `no_op` and `insert_as_block`, rows standing for themselves (`rowOk`: no given node identifier
+or node name, the action as the documentation describes it), any number of edges per row with
+explicit `from` row ids, blank `from` or `start`, under the single-meaning conditions `edgeOk`,
+`distinctTests`, `sameVars` and `freshNames`, which are read off the edges the reference
+interpretation resolves -/
 def inFragment (rows : List CRow) : Bool :=
   rows.all rowOk &&
   match RefFlow.pass1 (rows.map toRRow) with
